@@ -15,6 +15,11 @@ round 3: nested machine (`ncoherent_of_wf`, `nwf_all`, `flat_covers_nested_all`)
          translator-known public mutator of every class through derived invokers
          (harness/c01_generic.py: replay twin, recomputation after cache_clear(), Network-level
          fresh twin) and the coverage obligation.
+round 4: stored state under re-initialising mutators (`mode_no_leak`, `mode_wf_all` about the
+         assignment-event tables of translate/c01_mode.py; harness/c01_mode.py: structural
+         histories over ALL ordered pairs of mutators, constructor modes / variants and sampled
+         triples, prediction correspondence, coverage); raising calls (`ncoherent_with_exceptions`,
+         exact lru histories with raising calls through `xhist`).
 """
 import contextlib
 import inspect
